@@ -48,7 +48,7 @@ import (
 
 const std = "stake"
 
-var poolDenoms = []string{"btc", "eth", "usdt"}
+var poolDenoms = []string{"btc", "eth", "usdt", "BTC"}
 
 // burstDenoms are the counterparty coins of the pools a "burst" creates: with them a history holds more than ten
 // pools, so that pool numbers get two digits (lpt-10 sorts before lpt-9, and lpt-1 is a prefix of it)
@@ -74,7 +74,7 @@ var (
 func csEnv() *chain.Env {
 	csEnvOnce.Do(func() {
 		users := chain.MakeUsers(6)
-		csEnvDflt = chain.NewEnv(chain.Options{ExtraDenoms: burstDenoms, GenesisMod: func(app *simapp.SimApp, gs simapp.GenesisState) {
+		csEnvDflt = chain.NewEnv(chain.Options{ExtraDenoms: append([]string{"BTC"}, burstDenoms...), GenesisMod: func(app *simapp.SimApp, gs simapp.GenesisState) {
 			cdc := app.AppCodec()
 			var bg banktypes.GenesisState
 			cdc.MustUnmarshalJSON(gs[banktypes.ModuleName], &bg)
@@ -616,7 +616,7 @@ func (m *csMachine) genAddUni(t *rapid.T, live []*poolInfo) csOp {
 // trade (a third coin that donations may have put on the escrow, another pool's coin, the pool's own share token).
 func (m *csMachine) genSide(t *rapid.T, p *poolInfo) string {
 	if uni(t, "foreignside", 24+1) == 0 {
-		return rapid.SampledFrom([]string{"point", "btc", "eth", "usdt", p.lpt}).Draw(t, "foreign")
+		return rapid.SampledFrom([]string{"point", "btc", "eth", "usdt", "BTC", p.lpt}).Draw(t, "foreign")
 	}
 	return rapid.SampledFrom([]string{std, p.denom}).Draw(t, "side")
 }
@@ -698,7 +698,7 @@ func (m *csMachine) genSwap(t *rapid.T, live []*poolInfo) csOp {
 	delta := sub(bigD, m.par.fee)
 	double := len(live) >= 2 && uni(t, "double", 99+1) < 45
 	if uni(t, "nopool", 39+1) == 0 { // a pair whose pool may not exist
-		op.In, op.Out = rapid.SampledFrom(poolDenoms).Draw(t, "in"), rapid.SampledFrom([]string{std, "btc", "eth", "usdt", "point"}).Draw(t, "out")
+		op.In, op.Out = rapid.SampledFrom(poolDenoms).Draw(t, "in"), rapid.SampledFrom([]string{std, "btc", "eth", "usdt", "BTC", "point"}).Draw(t, "out")
 		op.A, op.B = m.amount(t, "a", 64).String(), "1"
 		if op.Buy {
 			op.A, op.B = bigHuge.String(), m.amount(t, "b", 30).String()
@@ -798,7 +798,7 @@ func (m *csMachine) genSend(t *rapid.T) csOp {
 			}
 		} else {
 			op.To = "next"
-			op.Denom = rapid.SampledFrom([]string{std, "btc", "eth", "usdt", "point"}).Draw(t, "denom")
+			op.Denom = rapid.SampledFrom([]string{std, "btc", "eth", "usdt", "BTC", "point"}).Draw(t, "denom")
 			op.A = m.amount(t, "amt", 64).String()
 		}
 	case k < 9: // share tokens change hands
@@ -813,7 +813,7 @@ func (m *csMachine) genSend(t *rapid.T) csOp {
 		op.A = m.rel(t, "amt", bal).String()
 	default: // fund a poor account
 		op.To = rapid.SampledFrom([]string{"u4", "u5"}).Draw(t, "to")
-		op.Denom = rapid.SampledFrom([]string{std, "btc", "eth", "usdt"}).Draw(t, "denom")
+		op.Denom = rapid.SampledFrom([]string{std, "btc", "eth", "usdt", "BTC"}).Draw(t, "denom")
 		if uni(t, "fakecoin", 3+1) == 0 {
 			op.Denom = rapid.SampledFrom(lookalikeHeld).Draw(t, "fake")
 		}
@@ -1031,6 +1031,9 @@ func (m *csMachine) Apply(op csOp) error {
 			lpt, addr := escrowOf(m.seq)
 			m.pools[op.Pool] = &poolInfo{denom: op.Pool, lpt: lpt, seq: m.seq, addr: addr}
 			m.order = append(m.order, op.Pool)
+			if m.pools["btc"] != nil && m.pools["BTC"] != nil {
+				m.cnt["two-pools-whose-coins-differ-by-letter-case"]++
+			}
 			m.seq++
 			created = true
 			m.cnt["pool-created"]++
@@ -1726,7 +1729,7 @@ func (m *csMachine) Classify() (bool, []string) {
 	return nt, cl
 }
 
-const c01Rule = "rapid state machine on the K-driver (irismod blockers only): up to 3 pools (btc/eth/usdt against stake), traders U0-U3 plus a poor account; rules add (first/later), remove, one-sided add/remove (either side), swap (sell/buy x single/double hop x recipient self/other/poor/blocked/pool escrow/module account), bank send (donation of either reserve coin or a third coin to an existing or future escrow address, share-token transfers), parameter update by the authority (fee, one-sided fee, tax rate, creation fee anywhere in their valid ranges) or by a user, next block, removal with a coin that only looks like a liquidity token (<name>-<N>, N a pool sequence: other prefix, other letter case, leading zeros; held by the sender from genesis), one-sided add/remove naming a coin the pool does not trade, genesis round trip of the coinswap module (export, wipe the store, import) after which the history continues; amounts by shape up to 2^128 and relative to live reserves, bounds drawn around the reference price (met exactly, off by one, loose, far off), deadlines around the block time; non-trivial = history with >=1 successful swap and >=1 successful liquidity change on a pool whose reserves are not both multiples of 10; distinct by SHA-256 of the op list"
+const c01Rule = "rapid state machine on the K-driver (irismod blockers only): up to 4 pools (btc/eth/usdt and BTC - a coin that differs from another pool's by letter case only - against stake), traders U0-U3 plus a poor account; rules add (first/later), remove, one-sided add/remove (either side), swap (sell/buy x single/double hop x recipient self/other/poor/blocked/pool escrow/module account), bank send (donation of either reserve coin or a third coin to an existing or future escrow address, share-token transfers), parameter update by the authority (fee, one-sided fee, tax rate, creation fee anywhere in their valid ranges) or by a user, next block, removal with a coin that only looks like a liquidity token (<name>-<N>, N a pool sequence: other prefix, other letter case, leading zeros; held by the sender from genesis), one-sided add/remove naming a coin the pool does not trade, genesis round trip of the coinswap module (export, wipe the store, import) after which the history continues; amounts by shape up to 2^128 and relative to live reserves, bounds drawn around the reference price (met exactly, off by one, loose, far off), deadlines around the block time; non-trivial = history with >=1 successful swap and >=1 successful liquidity change on a pool whose reserves are not both multiples of 10; distinct by SHA-256 of the op list"
 
 const c02Rule = "same machine as C01 layer 2 with the balance-sheet oracle (every bank balance and supply before/after each message); non-trivial = history with a successful swap whose recipient differs from the sender, or a routed (double-hop) swap, or a swap bound met exactly, or a message rejected for a bound missed by exactly one unit (shown by re-running it with loosened bounds on a branch); distinct by SHA-256 of the op list"
 
